@@ -75,6 +75,11 @@ def run_case(case):
             no += not want
             p2 = pkt + [digest] if (i + j) % 5 == 0 and pkt else pkt
             k2 = key + [digest] if (i + 2 * j) % 7 == 0 and key else key
+            held = None
+            if (i + j) % 4 == case.get('salt', 0) % 4 and matching:
+                # the application is in the middle of iterating over the matches of another name on the same checker
+                held = iter(checker.match(matching[(i + j) % len(matching)]))
+                next(held, None)
             for label, ck in (('direct', checker), ('loaded', loaded), ('reordered', reordered)):
                 try:
                     if label == 'direct':
@@ -88,8 +93,12 @@ def run_case(case):
                 if got != want:
                     kind = 'allows-forbidden' if got else 'refuses-allowed'
                     nomatch = '' if L.matches_any(sch, key, fns, ex) else '/key-matches-no-rule'
-                    r.bad(f'C12/{label}/{kind}{nomatch}', f'pkt={_show(p2)} key={_show(k2)} :: {text}')
+                    r.bad(f'C12/{label}/{kind}{nomatch}{"/while-a-match-iterator-is-open" if held is not None and label == "direct" else ""}',
+                          f'pkt={_show(p2)} key={_show(k2)} :: {text}')
                     break
+            if held is not None:
+                for _ in held:
+                    pass
             if r.violations:
                 break
         if r.violations:
